@@ -79,3 +79,68 @@ Proof. split; [vm_compute; reflexivity|]. eexists. vm_compute. split; reflexivit
 Example accepted_config_is_valid_refuted_pinned_nonsquare :
   exists cfg L, load_with pinned_facts true (mkGram 3 2 [0%N]) cfg = Ok L /\ spec_accepts (mkGram 3 2 [0%N]) cfg = false.
 Proof. exists (mkCfg [] [Simple 2 1 0 (true, 0%N) false]). eexists. vm_compute. split; reflexivity. Qed.
+
+(* ======================================================================================================================
+   Text layer *)
+From Coq Require Import String.
+From SudachiVerif Require Import Model.UnkDefText Model.CharDefText.
+Open Scope string_scope.
+
+Definition T (s : string) : text := bytes_of s.   (* ASCII *)
+Definition LF : string := String (Ascii.ascii_of_nat 10) EmptyString.
+Definition CR : string := String (Ascii.ascii_of_nat 13) EmptyString.
+Definition TAB : string := String (Ascii.ascii_of_nat 9) EmptyString.
+
+Definition ex_chardef : text :=
+  T ("# categories" ++ LF ++ "DEFAULT 0 1 0  # mandatory" ++ CR ++ LF ++ LF ++ "0x0030..0x0039 NUMERIC" ++ LF
+     ++ "  ALPHA" ++ TAB ++ "1 1  2 " ++ LF ++ "NUMERIC|KANJI yes 01 +3").
+Definition ex_unkdef : text :=
+  T ("#comment" ++ LF ++ "ALPHA,1,2,-5,a,b,c,d,e,f" ++ CR ++ LF ++ " DEFAULT,+0,0,32767,a,b,c,d,e,f,extra " ++ LF ++ LF
+     ++ "KANJI | NUMERIC,0,1,7,p,q,r,s,t,u" ++ LF ++ "ALPHA,0,0,0,a,b,c,d,e,f").
+
+(* non-vacuity of C20_charprop_text_spec / C20_unk_text_spec: comments, blank and range lines skipped, CRLF and padding
+   tolerated, composite category, flags other than "1" read as false, '+' accepted *)
+Example ex_charprop_reads :
+  read_character_property ex_chardef = CPOk [mkCat 1 false true 0; mkCat 32 true true 2; mkCat 20 false false 3].
+Proof. vm_compute. reflexivity. Qed.
+
+Example ex_unk_reads :
+  read_oov_text [1; 32; 20]%N ex_unkdef
+  = UOk [mkTpl 32 1 2 (-5) (map T ["a"; "b"; "c"; "d"; "e"; "f"]); mkTpl 1 0 0 32767 (map T ["a"; "b"; "c"; "d"; "e"; "f"]);
+         mkTpl 20 0 1 7 (map T ["p"; "q"; "r"; "s"; "t"; "u"]); mkTpl 32 0 0 0 (map T ["a"; "b"; "c"; "d"; "e"; "f"])]
+  /\ templates_of 32 [mkTpl 32 1 2 (-5) []; mkTpl 1 0 0 32767 []; mkTpl 32 0 0 0 []] = [mkTpl 32 1 2 (-5) []; mkTpl 32 0 0 0 []].
+Proof. vm_compute. split; reflexivity. Qed.
+
+(* the enumerated error kinds, each with its line *)
+Example ex_charprop_errors :
+  map (fun s => read_character_property (T s))
+      ["DEFAULT 0 1"; "DEFAULT 0 1 0" ++ LF ++ "alpha 1 1 0"; "ALPHA 1 1 0" ++ LF ++ "# c" ++ LF ++ "ALPHA 0 0 1"; "DEFAULT 0 1 -1";
+       "DEFAULT 0 1 4294967296"; "DEFAULT 0 1 4294967295"; "ALPHA| 1 1 0"]
+  = [CPErr 0 CpTooFewColumns; CPErr 1 CpBadCategory; CPErr 2 CpDuplicate; CPErr 0 CpBadLength; CPErr 0 CpBadLength;
+     CPOk [mkCat 1 false true 4294967295]; CPErr 0 CpBadCategory].
+Proof. vm_compute. reflexivity. Qed.
+
+Example ex_unk_errors :
+  map (fun s => match read_oov_text [1; 32]%N (T s) with UOk ts => (0%N, 99%nat) | UErr i e =>
+                  (i, match e with UTooFewColumns => 0 | UBadCategory => 1 | UUndefinedCategory => 2 | UBadNumber k => (10 + k) end)%nat end)
+      ["ALPHA,1,1,1,a,b,c,d,e"; "ALPHA,1,1,1,a,b,c,d,e,f" ++ LF ++ "alpha,1,1,1,a,b,c,d,e,f"; "KANJI,1,1,1,a,b,c,d,e,f";
+       ",1,1,1,a,b,c,d,e,f"; "ALPHA, 1,1,1,a,b,c,d,e,f"; "ALPHA,1,32768,1,a,b,c,d,e,f"; "ALPHA,1,1,-32769,a,b,c,d,e,f";
+       "ALPHA,-1,1,1,a,b,c,d,e,f"; "0x20,1,1,1,a,b,c,d,e,f"]
+  = [(0%N, 0); (1%N, 1); (0%N, 2); (0%N, 2); (0%N, 11); (0%N, 12); (0%N, 13); (0%N, 99); (0%N, 99)]%nat.
+Proof. vm_compute. reflexivity. Qed.
+
+(* the composed set-up on a 3x2 grammar: boundary ids accepted, the dimension itself rejected as a range error of its line,
+   an absent POS rejected under forbid and registered under allow *)
+Definition kp (s : list string) : N := pos_key (map T s).
+Definition ex_tg : gram := mkGram 3 2 [kp ["a"; "b"; "c"; "d"; "e"; "f"]].
+Example ex_setup :
+  map (fun ua => match mecab_setup ex_tg (pos ex_tg) (snd ua) (T "DEFAULT 0 1 0") (T (fst ua)) with
+                 | SetupOk _ ts tbl => (0%N, N.of_nat (List.length ts), N.of_nat (List.length tbl))
+                 | SetupErr e => (fst (err_code e), match snd (err_code e) with Some i => i | None => 77%N end, 0%N)
+                 | SetupPanic => (99%N, 0%N, 0%N)
+                 end)
+      [("DEFAULT,1,2,0,a,b,c,d,e,f", false); ("DEFAULT,2,0,0,a,b,c,d,e,f", false); ("DEFAULT,0,3,0,a,b,c,d,e,f", false);
+       ("DEFAULT,0,0,0,a,b,c,d,e,g", false); ("DEFAULT,0,0,0,a,b,c,d,e,g" ++ LF ++ "DEFAULT,0,0,0,a,b,c,d,e,g", true);
+       ("DEFAULT,0,0,0,a,b,c,d,e,f" ++ LF ++ "DEFAULT,0,x,0,a,b,c,d,e,f", false)]
+  = [(0, 1, 1); (6, 77, 0); (6, 77, 0); (5, 77, 0); (0, 2, 2); (4, 77, 0)]%N.
+Proof. vm_compute. reflexivity. Qed.
